@@ -665,6 +665,33 @@ func (net *Net) ByzProposal(v int, ref int, round int, polRound int, txs []types
 	return &consensus.ProposalMessage{Proposal: prop}, pms, bid, nil
 }
 
+// ByzRepropose makes byzantine validator v re-propose, at the given round and
+// with the given POL round, the block that node ref is locked on (or has as its
+// valid / proposal block).
+func (net *Net) ByzRepropose(v int, ref int, round int, polRound int) (*consensus.ProposalMessage, []*consensus.BlockPartMessage, types.BlockID, error) {
+	rs := net.Nodes[ref].CS.GetRoundState()
+	block, parts := rs.LockedBlock, rs.LockedBlockParts
+	if block == nil {
+		block, parts = rs.ValidBlock, rs.ValidBlockParts
+	}
+	if block == nil {
+		block, parts = rs.ProposalBlock, rs.ProposalBlockParts
+	}
+	if block == nil || parts == nil {
+		return nil, nil, types.BlockID{}, fmt.Errorf("node %d holds no block", ref)
+	}
+	bid := types.BlockID{Hash: block.Hash(), PartsHeader: parts.Header()}
+	prop := types.NewProposal(rs.Height, round, polRound, bid)
+	prop.Timestamp = time.Date(2026, 1, 1, 0, 0, 0, 0, time.UTC)
+	sig, _ := net.Keys[v].Sign(prop.SignBytes(ChainID))
+	prop.Signature = sig
+	var pms []*consensus.BlockPartMessage
+	for i := 0; i < parts.Total(); i++ {
+		pms = append(pms, &consensus.BlockPartMessage{Height: rs.Height, Round: round, Part: parts.GetPart(i)})
+	}
+	return &consensus.ProposalMessage{Proposal: prop}, pms, bid, nil
+}
+
 // ProposerAt returns the validator index that proposes (height, round) from
 // the point of view of node ref's current validator set (round relative to
 // the node's current round state).
